@@ -267,6 +267,23 @@ template<int L, class T> void gen_all(Rng& rng) {
             run_case<L, T>(cs, idx++);
         }
     }
+    // (4b) parallel and antiparallel unit vectors as GLM's normalize returns them (the rounded dot product of such a pair lies on either side of
+    //      +-1: the angle functions must clamp before acos), small integer directions first ((1,4,0) has dot(x,x) = 1 + 2^-23 in float)
+    {
+        int N = int(24 * M);
+        for (int it = 0; it < N; ++it) {
+            glm::vec<L, T, QH> v, w; bool nz = false;
+            for (int k = 0; k < L; ++k) { long long m = it < 12 ? (long long)((it * (k + 3) + k * k + 1) % 9) - (k == 2 ? 4 : 0) : (long long)(rng.below(41)) - 20; v[k] = T(m); nz = nz || m != 0; w[k] = T((long long)(rng.below(9)) - 4); }
+            if (it == 0 && L >= 2) { v = glm::vec<L, T, QH>(T(0)); v[0] = T(1); v[1] = T(4); nz = true; }
+            if (!nz) v[0] = T(1);
+            bool wz = true; for (int k = 0; k < L; ++k) wz = wz && w[k] == T(0); if (wz) w[L - 1] = T(1);
+            v = glm::normalize(v); w = glm::normalize(w);
+            for (int k = 0; k < 4; ++k) { cs.a[k] = k < L ? v[k] : T(0); cs.b[k] = cs.a[k]; cs.c[k] = k < L ? w[k] : T(0); }
+            cs.eta = T(1); cs.depth = 2; run_case<L, T>(cs, idx++);
+            for (int k = 0; k < 4; ++k) cs.b[k] = -cs.a[k];
+            run_case<L, T>(cs, idx++);
+        }
+    }
     // (5) outside the documented domain (constrain nothing): non-finite and extreme magnitudes
     {
         const T big = std::numeric_limits<T>::max(), tiny = std::numeric_limits<T>::denorm_min(), inf = std::numeric_limits<T>::infinity();
